@@ -146,6 +146,10 @@ func (s *c11St) truthAt(v *c11V, upto int, oracle func(*c11V) c11Tri) c11Tri {
 			if a.key() == b.key() {
 				return c11F
 			}
+			// trichotomy: neither b < a nor a == b
+			if s.known(c11Bin(token.LSS, b, a), upto) == c11F && s.known(c11Bin(token.EQL, a, b), upto) == c11F {
+				return c11T
+			}
 			if s.known(c11Bin(token.LSS, b, a), upto) == c11T || s.known(c11Bin(token.EQL, a, b), upto) == c11T {
 				return c11F
 			}
